@@ -684,6 +684,11 @@ pub fn make_prior(rng: &mut Rng, is128: bool, kind: Prior) -> (Machine, bool) {
         let _ = load_szx(&mut m, &bytes);
     }
     let ok = make_hostile(&mut m, rng, kind);
+    // the receiving emulator may have a host I/O extender attached that claims port 0x00FE (a
+    // host-side keyboard, say): restoring a snapshot's border is not a port write of the program
+    if kind != Prior::Fresh && rng.chance(1, 4) {
+        m.emu.set_io_extender(crate::host::LogExt::new(vec![(0xFFFF, 0x00FE)]));
+    }
     (m, ok)
 }
 
